@@ -395,7 +395,9 @@ PROPS = {
     'C18': {
         'contract_modules': ['c18_trace'],
         'replay': 'c18.py',
-        'functions': ['treadmill.trace._zk:cleanup', 'treadmill.trace._zk:upload_batch', 'treadmill.trace.app.zk:cleanup_trace', 'treadmill.trace.app.zk:cleanup_finished'],
+        'functions': ['treadmill.trace._zk:cleanup', 'treadmill.trace._zk:upload_batch', 'treadmill.trace.app.zk:cleanup_trace', 'treadmill.trace.app.zk:cleanup_finished',
+                      'treadmill.trace._zk:download_batch', 'treadmill.trace.app.zk:cleanup_trace_history',
+                      'treadmill.trace.app.zk:cleanup_finished_history'],
         'extra': [('bounded:trace-archiving-histories',
                    bounded_replay('c18.py', 'C18', 'cleanup_trace/cleanup_finished/_zk.cleanup histories', 150, 6000))],
         'assumptions': [
@@ -418,8 +420,11 @@ PROPS = {
             'the rows given to executemany (the SQL text is NOT interpreted: table name and column order are read off '
             'the source), f.read() is a token whose rows (path, data, name) are those rows, decompress(compress(x)) == x. '
             '"retrievable" is stated as: a live node under the history directory holds a row with the node path (and, for '
-            'finished records, the decoded payload the record had); download_batch (SELECT ... GLOB) is not under '
-            'contract - the bounded stand-in opens every snapshot with sqlite and calls the real download_batch',
+            'finished records, the decoded payload the record had); download_batch is under contract for its data flow (node '
+            '-> decompress -> temporary file -> SELECT: it returns the name column of exactly the snapshot rows the statement '
+            'built from `name` selects) but the SQL text (GLOB \'<name>,*\') is NOT interpreted: that an instance\'s events '
+            'match the pattern is checked by the bounded stand-in, which opens every snapshot with sqlite and calls the real '
+            'download_batch',
             'event names: event.split(\',\', 2) and float() are uninterpreted functions of the text (split_part, '
             'str_to_real) raising ValueError on malformed names (then nothing is written: proved); the lexicographic order '
             'of strings is an uninterpreted relation; list.sort() on tuples is a permutation (order not used by the property)',
